@@ -304,6 +304,44 @@ func isGrpcStatusKey(k string) bool {
 //   - grpc-status-wire-message: the tree holds an opaque gRPC status leaf showing
 //     only the status description, and every differing node differs only by the
 //     missing "rpc error: code = X desc = " part.
+//
+// knownTextDiffJourney: the same over a sequence of hops. A text computed at an intermediary that
+// does not know a barrier / gRPC status type is frozen into the message of every ancestor that a
+// later process keeps as an opaque stand-in, also after the barrier itself has been rebuilt: the
+// finding explains the final difference when it explains the state at SOME step and every final
+// difference is of the same kind (markers / '?' / the missing status prefix only).
+func knownTextDiffJourney(e0 error, hops [][]string) string {
+	cur := e0
+	seen := ""
+	for _, h := range hops {
+		if cur == nil {
+			return ""
+		}
+		cur = transferOnce(cur, h)
+		if m := knownTextDiff(e0, cur); m != "" && seen == "" {
+			seen = m
+		}
+	}
+	if seen == "" || cur == nil {
+		return seen
+	}
+	if m := knownTextDiff(e0, cur); m != "" {
+		return m
+	}
+	var a, b []error
+	visitAll(e0, func(x error) { a = append(a, x) })
+	visitAll(cur, func(x error) { b = append(b, x) })
+	if len(a) != len(b) {
+		return ""
+	}
+	for i := range a {
+		if ta, tb := a[i].Error(), b[i].Error(); ta != tb && normKnown(ta) != normKnown(tb) {
+			return ""
+		}
+	}
+	return seen
+}
+
 func knownTextDiff(e0, ek error) string {
 	var a, b []error
 	visitAll(e0, func(x error) { a = append(a, x) })
@@ -421,7 +459,7 @@ func init() {
 				}
 				if b0 != bk {
 					m := ""
-					m = knownTextDiff(o.e, ek)
+					m = knownTextDiffJourney(o.e, hops)
 					o.fail(fmt.Sprintf("Is(e, ref %d) = %v before transfer but %v after hops %s", i, b0, bk, hopsStr(hops)), m,
 						fmt.Sprintf("ref: %s", o.c.Refs[i].Sx().String()))
 					return
@@ -433,8 +471,8 @@ func init() {
 				rk := transfer(r, hops)
 				if bb := errors.Is(ek, rk); bb != b0 && !(bb && markAtUnknowing(o.e, r, hops[len(hops)-1])) {
 					m := ""
-					if m = knownTextDiff(o.e, ek); m == "" {
-						m = knownTextDiff(r, rk)
+					if m = knownTextDiffJourney(o.e, hops); m == "" {
+						m = knownTextDiffJourney(r, hops)
 					}
 					if !(b0 && !bb && (identityIsMethodMatch(o.e, r) || markAtUnknowing(o.e, r, hops[len(hops)-1]))) {
 						o.fail(fmt.Sprintf("Is(e, ref %d) = %v locally but %v when both crossed hops %s", i, b0, bb, hopsStr(hops)), m,
@@ -452,7 +490,7 @@ func init() {
 				}
 				if b0 && !rb && !hasIsMethod(o.e) {
 					m := ""
-					m = knownTextDiff(r, rk)
+					m = knownTextDiffJourney(r, hops)
 					o.fail(fmt.Sprintf("Is(e, ref %d) true locally but false once only the reference crossed hops %s (no Is method involved)", i, hopsStr(hops)), m,
 						fmt.Sprintf("ref: %s", o.c.Refs[i].Sx().String()))
 					return
@@ -1853,7 +1891,7 @@ func init() {
 			o.evals++
 			if t := textTree(ek).String(); t != t0 {
 				m := ""
-				m = knownTextDiff(o.e, ek)
+				m = knownTextDiffJourney(o.e, hops)
 				o.fail("branches (count, order or text) differ after hops "+hopsStr(hops), m, firstDiff(t0, t))
 				return
 			}
@@ -2234,15 +2272,19 @@ var _ = oserror.IsTimeout
 // opErrorArrowOnly: got and want differ only by " -> " for "->" between the source and
 // the address of a *net.OpError of the tree that has both.
 func opErrorArrowOnly(e error, got, want string) bool {
-	fixed := got
+	// both renderings normalised: an OpError nested below an engine-rendered layer (a library
+	// Join, Wrap ...) shows the spaced form in Error() too
+	g, w := got, want
 	found := false
 	visitAll(e, func(x error) {
 		if oe, ok := x.(*net.OpError); ok && oe.Source != nil && oe.Addr != nil {
 			found = true
-			fixed = strings.ReplaceAll(fixed, oe.Source.String()+" -> "+oe.Addr.String(), oe.Source.String()+"->"+oe.Addr.String())
+			spaced, tight := oe.Source.String()+" -> "+oe.Addr.String(), oe.Source.String()+"->"+oe.Addr.String()
+			g = strings.ReplaceAll(g, spaced, tight)
+			w = strings.ReplaceAll(w, spaced, tight)
 		}
 	})
-	return found && fixed == want
+	return found && g == w && got != want
 }
 
 // verboseShowsAll: %+v of a multi-cause error has one numbered entry per layer of the whole
